@@ -234,20 +234,13 @@ class Attribute:
         # label
         characteristics += '0'
 
-        # count
+        # count (the default count is 1; any other count - including 0, for an empty list of values - must be written)
         count = self.count
-        if count and count != 1:
+        if count is not None and count != 1:
             bts += write_struct_uvari(count)
             characteristics += '1'
         else:
-            if self._value is not None:
-                if count is not None and count > 1:
-                    bts += write_struct_uvari(count)
-                    characteristics += '1'
-                else:
-                    characteristics += '0'
-            else:
-                characteristics += '0'
+            characteristics += '0'
 
         # representation code
         if self.representation_code:
@@ -289,9 +282,14 @@ class Attribute:
         rc = self.representation_code
         value = self._value
 
+        if isinstance(value, (list, tuple)):
+            value = self.flatten_list(value)
+            if not value:
+                value = None  # count is 0: there are no values to announce
+
         if value is not None:
-            if isinstance(value, (list, tuple)):
-                for val in self.flatten_list(value):
+            if isinstance(value, list):
+                for val in value:
                     bts += write_struct(rc, val)
             else:
                 bts += write_struct(rc, value)
